@@ -748,6 +748,35 @@ impl<'a> Monitor<'a> {
                         }
                     }
                 }
+                // source scaling rule for the other source kinds: the shaded colour under a global alpha
+                // is the alpha = 1 colour scaled by the alpha byte (exact at both ends)
+                let general = match op {
+                    Op::Fill(_, sp, o) | Op::Stroke(_, sp, _, o) | Op::FillRect(_, _, _, _, sp, o) if !matches!(sp, SrcSpec::Solid(_)) => Some((sp, o.alpha)),
+                    _ => None,
+                };
+                if let (Some((sp, a)), Some(v)) = (general, src_v.as_ref()) {
+                    if let Some(v1) = probe_source(self.w, self.h, &self.ctm, sp, 1.0) {
+                        let ab = opacity_byte(a) as f64;
+                        self.st.add("source_scaling_checked", 1);
+                        for k in 0..v.len() {
+                            let (ca, c1) = (ch(v[k]), ch(v1[k]));
+                            let mut ok = true;
+                            for i in 0..4 {
+                                ok &= (ca[i] as f64 - c1[i] as f64 * ab / 255.).abs() <= 2.0;
+                            }
+                            if ab == 255. {
+                                ok &= v[k] == v1[k];
+                            }
+                            if ab == 0. {
+                                ok &= v[k] == 0;
+                            }
+                            if !ok {
+                                self.viol("C03", format!("{} source with alpha {} is shaded as {} at ({},{}) where alpha 1 gives {}", sp.kind(), a, hex(v[k]), k as i32 % self.w, k as i32 / self.w, hex(v1[k])));
+                                break;
+                            }
+                        }
+                    }
+                }
                 let name = op.name();
                 if nl > 0 {
                     let (lb, lrect) = &before.1[nl - 1];
